@@ -1633,17 +1633,66 @@ func (ex *exec) autoCandidates(li *loopInfo, pre, st *State, modLocals []*ssa.Al
 	for _, a := range ints {
 		a := a
 		p := pre.locals[a]
-		add("ge", a.Comment, func(s *State) string { return "(>= " + cur(s, a) + " " + p + ")" })
-		add("le", a.Comment, func(s *State) string { return "(<= " + cur(s, a) + " " + p + ")" })
+		up, down := ex.updateDirections(li, a)
+		if !down {
+			add("ge", a.Comment, func(s *State) string { return "(>= " + cur(s, a) + " " + p + ")" })
+		}
+		if !up {
+			add("le", a.Comment, func(s *State) string { return "(<= " + cur(s, a) + " " + p + ")" })
+		}
+	}
+	// upper bound of a counter from the loop condition  i < B  (B not changed by the loop):  i <= max(pre(i), B)
+	if iff, ok := li.header.Instrs[len(li.header.Instrs)-1].(*ssa.If); ok {
+		if bo, ok := iff.Cond.(*ssa.BinOp); ok && (bo.Op == token.LSS || bo.Op == token.LEQ) {
+			if ld, ok := bo.X.(*ssa.UnOp); ok && ld.Op == token.MUL {
+				if a, ok := ld.X.(*ssa.Alloc); ok {
+					isMod := func(x *ssa.Alloc) bool {
+						for _, m := range modLocals {
+							if m == x {
+								return true
+							}
+						}
+						return false
+					}
+					bound := ""
+					switch y := bo.Y.(type) {
+					case *ssa.Const:
+						bound = ex.constVal(y).T
+					case *ssa.UnOp:
+						if b, ok := y.X.(*ssa.Alloc); ok && y.Op == token.MUL && !b.Heap && !isMod(b) {
+							bound = pre.locals[b]
+						}
+					default:
+						if v, ok := vc.vals[bo.Y]; ok && !li.blocks[bo.Y.(ssa.Instruction).Block()] {
+							bound = v.T
+						}
+					}
+					up, down := ex.updateDirections(li, a)
+					pa, live := pre.locals[a]
+					if bound != "" && live && isMod(a) && up && !down {
+						if bo.Op == token.LEQ {
+							bound = "(+ " + bound + " 1)"
+						}
+						add("ub", a.Comment, func(s *State) string {
+							return "(<= " + cur(s, a) + " (ite (>= " + pa + " " + bound + ") " + pa + " " + bound + "))"
+						})
+					}
+				}
+			}
+		}
 	}
 	for _, sv := range strs {
 		sv := sv
 		p := pre.locals[sv]
 		add("bin", sv.Comment, func(s *State) string { return sImp("(gs.isbin "+p+")", "(gs.isbin "+cur(s, sv)+")") })
 		add("len", sv.Comment, func(s *State) string { return "(>= (gs.len " + cur(s, sv) + ") (gs.len " + p + "))" })
+		add("prefix", sv.Comment, func(s *State) string { return "(= (gs.sub " + cur(s, sv) + " 0 (gs.len " + p + ")) " + p + ")" })
 		for _, a := range ints {
 			a := a
 			pa := pre.locals[a]
+			if up, down := ex.updateDirections(li, a); !up || down {
+				continue // only counters that go up can be in step with a growing string
+			}
 			add("diff", sv.Comment+","+a.Comment, func(s *State) string {
 				return "(= (- (gs.len " + cur(s, sv) + ") " + cur(s, a) + ") (- (gs.len " + p + ") " + pa + "))"
 			})
@@ -1675,7 +1724,7 @@ func (eng *Engine) verifyHoudini(run func(drop map[string]bool) *VC) *VC {
 			return vc
 		}
 		scratch := scratchDir()
-		solveAll(autos, solveOpts{timeoutS: 3, scratch: scratch, workers: 12})
+		solveAll(autos, solveOpts{timeoutS: 2, scratch: scratch, workers: 12})
 		os.RemoveAll(scratch)
 		changed := false
 		for _, o := range autos {
@@ -1684,6 +1733,9 @@ func (eng *Engine) verifyHoudini(run func(drop map[string]bool) *VC) *VC {
 				if !drop[b] {
 					drop[b] = true
 					changed = true
+					if os.Getenv("BMVERIF_DEBUG_HOUDINI") != "" {
+						fmt.Fprintf(os.Stderr, "houdini: drop %s (%s)\n", b, o.Result)
+					}
 				}
 			}
 		}
@@ -1712,4 +1764,37 @@ func (ex *exec) checkReadLoc(l *Loc, addr ssa.Value, pos token.Pos) {
 		return
 	}
 	ex.checkRead(l, ex.describe(addr), pos)
+}
+
+// updateDirections: does the loop contain an update of local a that can increase it / decrease it?
+// (x = x + c with a positive constant only increases, x = x - c only decreases; anything else may do both.)
+func (ex *exec) updateDirections(li *loopInfo, a *ssa.Alloc) (up, down bool) {
+	for b := range li.blocks {
+		for _, ins := range b.Instrs {
+			st, ok := ins.(*ssa.Store)
+			if !ok || st.Addr != ssa.Value(a) {
+				continue
+			}
+			bo, ok := st.Val.(*ssa.BinOp)
+			if !ok {
+				return true, true
+			}
+			ld, ok := bo.X.(*ssa.UnOp)
+			c, okc := bo.Y.(*ssa.Const)
+			if !ok || !okc || ld.Op != token.MUL || ld.X != ssa.Value(a) || c.Value == nil || c.Value.Kind() != constant.Int {
+				return true, true
+			}
+			sign := constant.Sign(c.Value)
+			switch {
+			case bo.Op == token.ADD && sign > 0, bo.Op == token.SUB && sign < 0:
+				up = true
+			case bo.Op == token.ADD && sign < 0, bo.Op == token.SUB && sign > 0:
+				down = true
+			case sign == 0:
+			default:
+				return true, true
+			}
+		}
+	}
+	return
 }
